@@ -540,7 +540,7 @@ func checkStrict(sc strictCase) (fw.Outcome, *fw.Violation) {
 
 func TestC07StrictEqual(t *testing.T) {
 	fw.Run(t, fw.Spec[strictCase]{
-		ID: "C07", Name: "strict_equal", Quick: 6000, Thorough: 120000,
+		ID: "C07", Name: "strict_equal", Quick: 6000, Thorough: 80000,
 		Gen: genStrictCase, Check: checkStrict,
 		Rule: "a session with @@STRICT_EQUAL (SET statement or the start-up flag of --strict-equal); tables of 2-12 rows (6%: 160-330 rows, CPU 4) from a CSV file or a typed temporary table; key columns of text drawn as letter-case / blank-padding variants of 1-3 words, typed integers and floats incl. 2 and 2.0 (temporary tables only), dates in one zero-padded notation as strings or typed datetimes; NULLs, duplicates; ORDER BY and LIMIT/OFFSET/PERCENT/WITH TIES as in 'sort' and 'cut'. Oracle: three-valued reference (strictly equal / ordered by the comparison ladder / ladder-equal but not strictly equal = no constraint): output is a duplicate-free subset cell for cell; no returned row precedes a row that must sort before it at the first key where the two are not strictly equal; the number of rows is the reference count (PERCENT of the pre-offset count), WITH TIES may only add rows that can equal the last counted row and (without offset) leaves no strictly equal row behind; the rows not returned split into at most m that must sort before a returned row and at most n-m-kept after. Non-trivial = some key column holds two values that are ladder-equal but not identical (strict mode decides) and a cut, when present, removes and keeps rows; distinct by (how set, key kinds/directions/null positions, tiebreak, relations present, cut kind, source, size class)",
 		Assumptions: []string{assumeNeg, assumePct,
